@@ -7,4 +7,4 @@ CONSTANTS
   MaxInject = 3
   Spoof = FALSE
   RestoreAtTop = FALSE
-INVARIANTS ReplyIffValid ExactlyOne ToSender ReplyHeader NeverAnswersReply BoundedTraffic HistoryIndependence
+INVARIANTS HistoryIndependence
